@@ -4,6 +4,9 @@
 #include <cstdint>
 #include <map>
 #include <tuple>
+#include <vector>
+
+#include "harness.hpp"
 
 #include "spqlios/arithmetic/vec_znx_arithmetic_private.h"
 #include "spqlios/coeffs/coeffs_arithmetic.h"
@@ -30,6 +33,76 @@ struct MaskGuard {
   ~MaskGuard() { spqlios_verif_set_cpu_mask(0); }
 };
 
+// ---------------------------------------------------------------------------------------------------------------------
+// Bystanders: other live objects.  An application holds many modules / precomputed tables of different dimensions and types at
+// once and creates and destroys them at any time; none of that may change what an existing object computes.  In one case out of
+// eight (a pure function of the case descriptor, so a replay repeats it), AFTER the object under test exists, one more object of
+// another dimension / type is created, used once, and either destroyed at once or parked (up to 4 parked, the oldest is
+// destroyed).  Called from ModuleCache::get and from the props' own table caches.
+struct Bystanders {
+  struct Live { int kind; void* p; };
+  std::vector<Live> parked;
+  uint64_t last_case = 0;
+  uint64_t created = 0;
+  static uint64_t mix(uint64_t z) {
+    z = (z ^ (z >> 30)) * 0xBF58476D1CE4E5B9ull;
+    z = (z ^ (z >> 27)) * 0x94D049BB133111EBull;
+    return z ^ (z >> 31);
+  }
+  static void destroy(const Live& l) {
+    switch (l.kind) {
+      case 0: case 1: delete_module_info((MODULE*)l.p); break;
+      case 2: q120_del_ntt_bb_precomp((q120_ntt_precomp*)l.p); break;
+      case 3: q120_del_intt_bb_precomp((q120_ntt_precomp*)l.p); break;
+      case 4: delete_reim_fft_precomp((REIM_FFT_PRECOMP*)l.p); break;
+      case 5: delete_reim_ifft_precomp((REIM_IFFT_PRECOMP*)l.p); break;
+      default: free(l.p);  // cplx tables are plain aligned blocks (their delete_* is #defined to free)
+    }
+  }
+  void run(uint64_t h) {
+    const unsigned prev = (spqlios_verif_cpu_allows("avx2") ? 0u : 1u) | (spqlios_verif_cpu_allows("fma") ? 0u : 2u);
+    spqlios_verif_set_cpu_mask(0);
+    const int kind = (int)(h % 10);
+    const uint64_t k = 1 + (h >> 8) % 10, n = 1ull << k;
+    Live l{kind, nullptr};
+    alignas(64) static double buf[4096];
+    for (auto& x : buf) x = 0;
+    switch (kind) {
+      case 0: l.p = new_module_info(n, FFT64); break;
+      case 1: l.p = new_module_info(n, NTT120); break;
+      case 2: l.p = q120_new_ntt_bb_precomp(n); q120_ntt_bb_avx2((q120_ntt_precomp*)l.p, (q120b*)buf); break;
+      case 3: l.p = q120_new_intt_bb_precomp(n); q120_intt_bb_avx2((q120_ntt_precomp*)l.p, (q120b*)buf); break;
+      case 4: l.p = new_reim_fft_precomp((uint32_t)n, 0); reim_fft((REIM_FFT_PRECOMP*)l.p, buf); break;
+      case 5: l.p = new_reim_ifft_precomp((uint32_t)n, 0); reim_ifft((REIM_IFFT_PRECOMP*)l.p, buf); break;
+      case 6: l.p = new_cplx_fft_precomp((uint32_t)n, 0); cplx_fft((CPLX_FFT_PRECOMP*)l.p, buf); break;
+      case 7: l.p = new_cplx_ifft_precomp((uint32_t)n, 0); cplx_ifft((CPLX_IFFT_PRECOMP*)l.p, buf); break;
+      case 8: reim_fft_simple((uint32_t)n, buf); reim_ifft_simple((uint32_t)n, buf); break;  // the cached *_simple front ends
+      default: cplx_fft_simple((uint32_t)n, buf); cplx_ifft_simple((uint32_t)n, buf);
+    }
+    ++created;
+    if (l.p) {
+      if ((h >> 20) & 1) destroy(l);
+      else {
+        parked.push_back(l);
+        if (parked.size() > 4) { destroy(parked.front()); parked.erase(parked.begin()); }
+      }
+    }
+    spqlios_verif_set_cpu_mask(prev);
+  }
+};
+inline Bystanders& bystanders() {
+  static Bystanders b;
+  return b;
+}
+inline void maybe_bystander() {
+  Bystanders& b = bystanders();
+  const uint64_t c = vh::g_case_hash;
+  if (c == 0 || c == b.last_case) return;  // once per case, at the first object the case obtains
+  b.last_case = c;
+  const uint64_t h = Bystanders::mix(c ^ 0xB157A2DE5ull);
+  if ((h & 7) == 0) b.run(h >> 3);
+}
+
 // MODULE cache: modules are immutable after creation (C12), creating one for N=65536 costs ~10 ms.
 // Deleting a module re-evaluates CPU_SUPPORTS, so the cache restores the creation mask around delete.
 struct ModuleCache {
@@ -37,10 +110,14 @@ struct ModuleCache {
   MODULE* get(uint64_t nn, MODULE_TYPE t, unsigned mask = 0) {
     auto key = std::make_tuple(nn, (int)t, mask);
     auto it = m.find(key);
-    if (it != m.end()) return it->second;
-    MaskGuard g(mask);
-    MODULE* mod = new_module_info(nn, t);
-    m[key] = mod;
+    MODULE* mod;
+    if (it != m.end()) mod = it->second;
+    else {
+      MaskGuard g(mask);
+      mod = new_module_info(nn, t);
+      m[key] = mod;
+    }
+    maybe_bystander();
     return mod;
   }
   ~ModuleCache() {
